@@ -163,6 +163,21 @@ CLAIMS = {
                  "separate specification theorem."),
         "ref": "DESIGN.md §4 C04",
     },
+    "C11": {
+        "technique": "Lean 4 theorems decided over generated tables: every alias group transcribed from docs/usage.md (regenerated each run) resolves through the alias tables extracted from field.rs/function.rs/operators.rs/query.rs/lexer.rs to one constructor, groups are pairwise distinct; case-insensitivity lemmas for every recogniser (for all words); select-list loop lemmas (optional select/commas, *), bracket-kind lemma, nullary call without brackets + in-process metamorphic comparison of Parser::parse across renderings + model correspondence + sampled row comparison",
+        "text": ("Theorems: for every alias group of the documentation (80 column groups, 56 function groups, 13 operator groups, 5 arithmetic "
+                 "words, 13 root options, 6 formats) all spellings are recognised and denote the same constructor, and different groups "
+                 "different constructors (the statement is re-decided against the regenerated code and doc tables on every run); for ALL "
+                 "words, recognition of a column, function, operator, arithmetic word, format, root option or lexer keyword depends only on "
+                 "the lower-cased word; the select-list loop skips `select` and commas and expands `*`; round and curly brackets give the "
+                 "same tree; an argument-less function with and without `()` is the same expression (D31 fixed); `asc` is a keyword "
+                 "producing no token. PARTIAL: invariance under splitting into shell words is FALSE in general (D01, known finding, pinned "
+                 "by the repository's own test) and is therefore not a theorem; for renderings that keep root-position words alone, and "
+                 "for the combinations of case/alias/bracket/optional-token renderings of whole generated queries, equality of the parsed "
+                 "Query (in-process) and of the rows is decided by the metamorphic check, and the lexer's context flags are covered by the "
+                 "model correspondence only. D63 fixed (root option `regexp`/any-case `RX`)."),
+        "ref": "DESIGN.md §4 C11",
+    },
     "C15": {
         "technique": "Lean 4 theorems: parser correctness for the whole arithmetic grammar E/T/F (mutual structural induction over derivations against the well-founded mutual recursive-descent model: precedence, left associativity, brackets, calls; atoms for literals/columns/quoted/negated), evaluator compositionality, memo locality and frame theorems (mutual induction over Expr) giving independence of a column from unrelated columns + CLI correspondence + independent IEEE-754 evaluation in Python + select-list permutation/alone metamorphic oracle",
         "text": ("Theorems: for EVERY derivation of E ::= E(+|-)T | T, T ::= T(*|/|%)F | F, F ::= atom | (E) | fn(E) — any depth and length — "
